@@ -162,6 +162,8 @@ Fixpoint bind (id : Z) (ps : list Z) (vs : list const) (r : env) : env :=
   | _, _ => r
   end.
 
+Definition pop (id : Z) (r : env) : env := filter (fun kv => negb (snd (fst kv) =? id)) r.
+
 (** [None] = no defined result (an error is raised, or the program leaves the fragment).
     Arguments are evaluated right to left, as the compiled code does (R7RS leaves the order open). *)
 Fixpoint eval (e : expr) (s : state) {struct e} : option const * state :=
@@ -217,7 +219,9 @@ Fixpoint eval (e : expr) (s : state) {struct e} : option const * state :=
       | Lam id ps false sv body =>
           if Nat.eqb (length ps) (length args) then
             match eval_args args s with
-            | (Some vs, (r, o)) => eval body (bind id ps vs r, o)
+            | (Some vs, (r, o)) =>
+                (* the parameters go out of scope when the body returns (assignments to outer variables stay) *)
+                match eval body (bind id ps vs r, o) with (v, (r1, o1)) => (v, (pop id r1, o1)) end
             | (None, s1) => (None, s1)
             end
           else (None, s)
